@@ -1,7 +1,7 @@
 #!/bin/bash
 # usage: lib/sweep.sh <slot> <id[:Cxx,Cyy]>...
 # Runs seeded changes against quick checks in a scratch copy /tmp/sw<slot>/{repo,verif} - never in /repo itself.
-# Results: /verif/work/sweep_results_<slot>.txt . Remove the copy afterwards with lib/sweep_clean.sh <slot>.
+# Results: /verif/work/sweep_results_<start time>_<slot>.txt (symlink work/sweep_latest_<slot>.txt). Remove the copy afterwards with lib/sweep_clean.sh <slot>.
 slot=$1; shift
 base=/tmp/sw$slot
 if [ ! -d "$base/repo" ]; then
@@ -12,7 +12,9 @@ mkdir -p "$base/verif"
 rsync -a --delete --exclude work --exclude replays --exclude harness/target --exclude harness/target-hfs --exclude facade/target --exclude .git /verif/ "$base/verif/"
 sed -i "s#path = \"/repo\"#path = \"$base/repo\"#" "$base/verif/harness/Cargo.toml"
 mkdir -p "$base/verif/work/cache"
-out=/verif/work/sweep_results_$slot.txt; : > "$out"
+# one result file per run, named by start time: the report reads them in name order, so a later run overrides an earlier one
+out=/verif/work/sweep_results_$(date -u +%Y%m%dT%H%M%S)_$slot.txt; : > "$out"
+ln -sfn "$out" /verif/work/sweep_latest_$slot.txt
 for d in "$@"; do
   id=${d%%:*}; props=${d#*:}
   [ "$props" = "$d" ] && props=$(python3 -c "import json;print(json.load(open('/verif/seeded/$id/meta.json'))['property'])")
